@@ -354,27 +354,29 @@ def specEntry (n : Nat) : Entry → Option AxisSel
   | .range2 a b => (pyAxis n a b none).map fun (l, f, k) => .walk l f k
   | .ellipsis => none
 
-/-- expand the (single) ellipsis to full slices and append full slices for trailing axes, as NumPy does;
-    `none`: more than one ellipsis or too many indices (IndexError) -/
-def expandEntries (dim : Nat) (es : List Entry) : Option (List Entry) :=
-  let nEll := (es.filter Entry.isEllipsis).length
-  let nAx := es.length - nEll
-  if nEll > 1 ∨ nAx > dim then none
-  else if nEll = 1 then
-    some (es.flatMap fun e => if e.isEllipsis then List.replicate (dim - nAx) (.range none none none) else [e])
-  else some (es ++ List.replicate (dim - nAx) (.range none none none))
+/-- a full slice `:` of an axis of extent `n` -/
+def fullSel (n : Nat) : AxisSel := .walk n 0 1
 
-def specSels : List Nat → List Entry → Option (List AxisSel)
-  | [], [] => some []
-  | n :: t, e :: es => do
-    let s ← specEntry n e
-    let r ← specSels t es
-    pure (s :: r)
-  | _, _ => none
+/-- entries against axes, left to right: the ellipsis stands for `nEll` full slices, axes left over at the end are
+    kept whole (NumPy appends `:`), an entry without an axis is an IndexError -/
+def specGo (nEll : Nat) : List Nat → List Entry → Option (List AxisSel)
+  | sh, [] => some (sh.map fullSel)
+  | sh, .ellipsis :: es =>
+    if nEll ≤ sh.length then (specGo nEll (sh.drop nEll) es).map ((sh.take nEll).map fullSel ++ ·) else none
+  | [], _ :: _ => none
+  | n :: t, e :: es =>
+    match specEntry n e with
+    | some s => (specGo nEll t es).map (s :: ·)
+    | none => none
 
-/-- NumPy basic indexing `a[es]` on shape `shape`: per-axis selections -/
+def numEllipsis (es : List Entry) : Nat := (es.filter Entry.isEllipsis).length
+
+/-- NumPy basic indexing `a[es]` on shape `shape`: per-axis selections.  `none`: more than one ellipsis or too many
+    indices (IndexError).  The ellipsis expands to `dim - (number of other entries)` full slices. -/
 def specSlice (shape : List Nat) (es : List Entry) : Option (List AxisSel) :=
-  (expandEntries shape.length es).bind (specSels shape)
+  let nAx := es.length - numEllipsis es
+  if numEllipsis es > 1 ∨ nAx > shape.length then none
+  else specGo (shape.length - nAx) shape es
 
 def specShape : List AxisSel → List Nat
   | [] => []
